@@ -179,6 +179,38 @@ func (a *Analysis) loopIndexOf(idx ssa.Value, x ssa.Value, at ssa.Instruction) b
 	if !nonNegativeInduction(idx) {
 		return false
 	}
+	// rotated loop (for i := range n): the body is entered only through tests `first < len(x)` and `next < len(x)`,
+	// the index being the join of first and next
+	if phi, ok := idx.(*ssa.Phi); ok && len(phi.Edges) == len(phi.Block().Preds) && len(phi.Edges) > 0 {
+		all := true
+		for i, e := range phi.Edges {
+			pred := phi.Block().Preds[i]
+			ifi, isIf := pred.Instrs[len(pred.Instrs)-1].(*ssa.If)
+			if !isIf || pred.Succs[0] != phi.Block() || pred.Succs[0] == pred.Succs[1] {
+				all = false
+				break
+			}
+			bo, isB := ifi.Cond.(*ssa.BinOp)
+			if !isB || bo.Op != token.LSS {
+				all = false
+				break
+			}
+			same := bo.X == e
+			if c1, ok1 := constInt(bo.X); ok1 {
+				if c2, ok2 := constInt(e); ok2 && c1 == c2 {
+					same = true
+				}
+			}
+			lx := lenOf(bo.Y)
+			if !same || lx == nil || !sameValue(lx, x) {
+				all = false
+				break
+			}
+		}
+		if all {
+			return true
+		}
+	}
 	for _, ce := range e5path.DominatingConds(at.Block()) {
 		bo, ok := ce.Cond.(*ssa.BinOp)
 		if !ok || bo.Op != token.LSS || !ce.Branch || bo.X != idx {
